@@ -363,6 +363,10 @@ def scenarios(tier: str):
     neg = c12_neg.cases(tier)
     for i in range(0, len(neg), 25):
         out.append({'neg': neg[i:i + 25]})
+    from . import c12_cmd
+    names = c12_cmd.command_classes()
+    for i in range(0, len(names), 4):
+        out.append({'cmd': names[i:i + 4]})
     for ws in _waiter_sets(tier):
         for seq in seqs:
             if not _relevant(ws, seq):
@@ -373,6 +377,8 @@ def scenarios(tier: str):
 
 
 def weight(params, tier):
+    if 'cmd' in params:
+        return 4
     if 'neg' in params:
         return 8
     return len(params['waiters']) * 3 + len(params['msgs'])
@@ -403,7 +409,28 @@ def _run_neg(params):
             'capped': False, 'samples': [{'case': params['neg'][0]}]}
 
 
+def _run_cmd(params):
+    from . import c12_cmd
+    viols, sigs, outcomes, transitions, n = [], set(), set(), 0, 0
+    for name in params['cmd']:
+        for variant in ('match', 'other'):
+            out = c12_cmd.run_command(name, variant)
+            n += 1
+            transitions += out['transitions']
+            outcomes.add(repr(out['obs']))
+            for v in out['violations']:
+                if v.signature not in sigs:
+                    sigs.add(v.signature)
+                    viols.append({'clause': v.clause, 'detail': v.detail, 'signature': v.signature, 'choices': [],
+                                  'deviations': [], 'case': [name, variant]})
+    return {'executions': n, 'violations': viols, 'states': len(outcomes), 'transitions': transitions,
+            'outcomes': [str(hash(o)) for o in outcomes], 'nontrivial': [str(hash(o)) for o in outcomes],
+            'capped': False, 'samples': [{'command': params['cmd'][0]}]}
+
+
 def run_scenario(params: dict, tier: str) -> dict:
+    if 'cmd' in params:
+        return _run_cmd(params)
     if 'neg' in params:
         return _run_neg(params)
     bound = _bound(params, tier)
@@ -417,6 +444,8 @@ def run_scenario(params: dict, tier: str) -> dict:
 
 
 def replay(params: dict, choices: list, tier: str = 'quick') -> dict:
+    if 'cmd' in params:
+        return {'violations': _run_cmd(params)['violations']}
     if 'neg' in params:
         return {'violations': _run_neg(params)['violations']}
     out = run_one(params, Chooser(choices))
